@@ -1,3 +1,46 @@
-From BV Require Import Base.Prelude Hist.Model.
-Theorem placeholder : True. Proof. exact I. Qed.
-Print Assumptions placeholder.
+(** C20 — Command history is saved once, in order, and reloads as saved.
+    Only pinned statements, [exact], and [Print Assumptions]. *)
+From BV Require Import Base.Prelude Base.Decimal Hist.Model Hist.Spec Hist.Proofs.
+
+(** For every op sequence (any number of sessions on one file) whose recorded commands do not
+    start with '#' after trimming, the model behaves as the abstract specification in
+    Hist/Spec.v, where a save appends exactly the unsaved commands, in order, once. *)
+Theorem c20_refinement : forall ops w, WF w -> Forall op_ok ops ->
+  abs (run w ops) = arun (abs w) ops /\ WF (run w ops).
+Proof. exact run_refines. Qed.
+Print Assumptions c20_refinement.
+
+Theorem c20_save_idempotent : forall w sid, step (step w (Save sid)) (Save sid) = step w (Save sid).
+Proof. exact save_idempotent. Qed.
+Print Assumptions c20_save_idempotent.
+
+Theorem c20_save_appends_exactly_unsaved : forall w sid h, WF w -> nth_error (sessions w) sid = Some h ->
+  afile (abs (step w (Save sid))) =
+  afile (abs w) ++ map (fun it => (cmd it, if tsflag w then ts it else None)) (filter dirty (items h)).
+Proof. exact save_appends_exactly_unsaved. Qed.
+Print Assumptions c20_save_appends_exactly_unsaved.
+
+Theorem c20_reload_as_saved : forall w, WF w ->
+  map (fun x => fst x) (view (import (file w))) = afile (abs w).
+Proof. exact reload_as_saved. Qed.
+Print Assumptions c20_reload_as_saved.
+
+(** Timestamps stay attached: re-importing what a save wrote gives back each unsaved item with
+    its own stamp (stamps in chrono's range). *)
+Theorem c20_timestamp_attached : forall tsf its, Forall item_ok its ->
+  iview (flush_lines tsf its) None = map (saved_view tsf) (filter dirty its) /\
+  ipend (flush_lines tsf its) None = None.
+Proof. exact iview_flush. Qed.
+Print Assumptions c20_timestamp_attached.
+
+Theorem c20_file_append_only : forall w o, exists more, file (step w o) = file w ++ more.
+Proof. exact file_append_only. Qed.
+Print Assumptions c20_file_append_only.
+
+Theorem c20_decimal_roundtrip : forall z, in_i64 z = true -> parse_i64 (show_Z z) = Some z.
+Proof. exact parse_show_Z. Qed.
+Print Assumptions c20_decimal_roundtrip.
+
+Theorem c20_nonvacuous : WF (init_world [[111;108;100]%N; HASH :: [49;50]%N; [99]%N]) /\ Forall op_ok ex_ops.
+Proof. exact ex_wf. Qed.
+Print Assumptions c20_nonvacuous.
